@@ -11,7 +11,12 @@ import (
 
 type Rng struct{ s uint64 }
 
-func New(seed uint64) *Rng { return &Rng{s: seed*0x9E3779B97F4A7C15 + 0x1234567} }
+// New scrambles the seed through the output function first: consecutive seeds must not give shifted copies of one stream.
+func New(seed uint64) *Rng {
+	r := &Rng{s: seed*0x9E3779B97F4A7C15 + 0x1234567}
+	r.s = r.U64() ^ (seed << 32) ^ 0xD1B54A32D192ED03
+	return r
+}
 
 func (r *Rng) U64() uint64 {
 	r.s += 0x9E3779B97F4A7C15
